@@ -12,6 +12,10 @@ func init() {
 		e.RSeq()
 		e.RAssert()
 		e.RSink()
+		e.RFragHelpers()
+		e.RFragOrder()
+		e.RNewlineScan()
+		e.RCommentLines()
 	})
 	register("C04", Meta{
 		Explanation: "Static render-site analysis: for all 54 node types every decoration point of the type's Decorations struct is rendered exactly once, unconditionally, by restore, with the end flag only on the own End point, in an order consistent with the point's name (after its namesake token/child, only tokens in between), with the fragger's order and with the struct's declaration order; the listing helper exposes the same points in render order backed by n.Decs.<name>; the accessor returns &n.Decs.NodeDecs. Listing and accessor clauses are decided; placement is decided relative to the restorer's synthetic positions, not through go/printer.",
@@ -23,6 +27,8 @@ func init() {
 		e.RName()
 		e.RSeq()
 		e.RSink()
+		e.RCommentsNotShared()
+		e.RCommentLines()
 	})
 	register("C06", Meta{
 		Explanation: "Static completeness and alias-freedom of Clone by induction over node types: for every type, every struct field and every decoration list the restorer reads (nested signature decorations included) is written by Clone from a recursive clone, a rebuilt list/map, a fresh append or a plain copy of an immutable kind; out is a fresh allocation and the only value returned; objects/scopes are dropped; restoreNode rejects a node met twice and every recursive call forwards the flag. Decides the whole statement structurally.",
@@ -32,6 +38,7 @@ func init() {
 		e.RClone()
 		e.RAssert()
 		e.RMemo()
+		e.RMaps() // duplicate detection looks the node up in Ast.Nodes: every restore path must have registered it
 		e.RGuard("clone")
 	})
 	register("C11", Meta{
@@ -42,5 +49,6 @@ func init() {
 		e.RMaps()
 		e.RMemo()
 		e.RSym()
+		e.RSharedMapsNotReplaced()
 	})
 }
